@@ -255,7 +255,9 @@ func (rw *regWorld) dump() (impl, ref string) {
 		if d != nil {
 			var es []string
 			for _, e := range d.Entities() {
-				es = append(es, fmt.Sprint(e.Address().Entity))
+				if len(e.Address().Entity) == 1 { // sub-entities are C06's subject (compared there)
+					es = append(es, fmt.Sprint(e.Address().Entity))
+				}
 			}
 			sort.Strings(es)
 			ic = append(ic, p+strings.Join(es, ""))
